@@ -1,7 +1,9 @@
 (* Proofs/PathSeg.v — every segment the encoders of Model/Path.v emit is read back by the strict
    parser of Spec/EPathParser.v as what the caller asked for ([denote]); paths are concatenations.
-   The parser is taken with an explicit code [f32] for the 32-bit logical format: 2 is CIP; the
-   regenerated table of the code under proof says 3.  Values below 2^16 never look at it. *)
+   The parser is taken with an explicit code [f32] for the 32-bit logical format (2 is CIP) and the
+   lemmas ask that the regenerated table of the code ([table_f32]) agrees with it or that no
+   4-byte value occurs: values below 2^16 never look at the code.  (Before /repo 7bdd341 the table
+   said 3, the reserved code; Proofs/C09P.v [table_f32_cip] is where a regression breaks.) *)
 From Coq Require Import String.
 From PV Require Import Base.Bytes Base.BytesLemmas Base.Proto Base.Res Base.PyStr Gen.PathTables
      Model.Path Spec.EPathParser Proofs.PathStr.
@@ -122,6 +124,28 @@ Proof.
   destruct (Nat.odd (length lb)); reflexivity.
 Qed.
 
+(* port identifier 15: the 16-bit extended port number follows (after the link size byte if any) *)
+Lemma parse_port_x f32 lo hi x r : lo + 256 * hi <> 0 ->
+  parse_seg f32 15 (lo :: hi :: x :: r) = Some (SPort (lo + 256 * hi) [x], r).
+Proof.
+  intros H. unfold parse_seg, parse_port. cbv zeta. change (15 / 32) with 0. change (15 / 16 mod 2) with 0.
+  change (15 mod 16) with 15. cbn [Z.eqb Pos.eqb].
+  destruct (lo + 256 * hi =? 0) eqn:E; [lia|]. reflexivity.
+Qed.
+
+Lemma parse_port_x_ext f32 lo hi lb tail : lo + 256 * hi <> 0 -> 2 <= len lb <= 255 ->
+  parse_seg f32 31 ((len lb :: lo :: hi :: lb ++ (if Nat.odd (length lb) then [0] else [])) ++ tail)
+  = Some (SPort (lo + 256 * hi) lb, tail).
+Proof.
+  intros H Hl. unfold parse_seg, parse_port. cbv zeta. change (31 / 32) with 0. change (31 / 16 mod 2) with 1.
+  change (31 mod 16) with 15. cbn [Z.eqb Pos.eqb app].
+  destruct (len lb =? 0) eqn:E1; [lia|]. destruct (lo + 256 * hi =? 0) eqn:E; [lia|].
+  unfold len. rewrite Nat2Z.id. rewrite <- app_assoc, take_app.
+  replace (Nat.odd (1 + 1 + 2 + length lb)) with (Nat.odd (length lb))
+    by (cbn [Nat.add]; repeat (rewrite Nat.odd_succ || rewrite Nat.even_succ); reflexivity).
+  destruct (Nat.odd (length lb)); reflexivity.
+Qed.
+
 Lemma parse_symbol f32 n tail : 1 <= len n <= 255 ->
   parse_seg f32 145 ((len n :: n ++ (if Nat.odd (length n) then [0] else [])) ++ tail)
   = Some (SSymbol n, tail).
@@ -198,10 +222,6 @@ Definition is32 (s : seg) : bool :=
   | Logical _ (LBytes b) => len b =? 4
   | _ => false
   end.
-(* numeric ports the single segment byte cannot express *)
-Definition port_ge15 (s : seg) : bool :=
-  match s with Port (inl n) _ => 15 <=? n | _ => false end.
-
 Definition seg_result (s : seg) (ss : sseg) : Prop :=
   exists enc, encode_seg true s = Ok enc /\ seg_parses f32 enc ss
               /\ bytes_ok enc = true /\ Nat.even (length enc) = true.
@@ -279,24 +299,50 @@ Definition resolve_port (port : Z + list Z) : res Z :=
   end.
 
 Lemma encode_port_plain port n link x :
-  resolve_port port = Ok n -> 0 <= n < 256 -> port_link_bytes link = Ok [x] ->
+  resolve_port port = Ok n -> 0 <= n <= 14 -> port_link_bytes link = Ok [x] ->
   encode_seg true (Port port link) = Ok [n; x].
 Proof.
   intros Hp Hn Hl. unfold encode_seg, encode_port, encode_port_with.
-  fold (resolve_port port). rewrite Hp, Hl. cbn [bind]. change (len [x]) with 1. change (1 <? 1) with false. cbn [bind].
+  fold (resolve_port port). rewrite Hp, Hl. cbn [bind]. destruct (14 <? n) eqn:E; [lia|]. cbn [bind].
+  change (len [x]) with 1. change (1 <? 1) with false. cbn [bind].
   rewrite USINT_small by lia. reflexivity.
 Qed.
 
 Lemma encode_port_ext port n link lb :
-  resolve_port port = Ok n -> 0 <= n <= 15 -> port_link_bytes link = Ok lb -> 2 <= len lb <= 255 ->
+  resolve_port port = Ok n -> 0 <= n <= 14 -> port_link_bytes link = Ok lb -> 2 <= len lb <= 255 ->
   encode_seg true (Port port link)
   = Ok (n + 16 :: len lb :: lb ++ (if Nat.odd (length lb) then [0] else [])).
 Proof.
   intros Hp Hn Hl Hlen. unfold encode_seg, encode_port, encode_port_with.
-  fold (resolve_port port). rewrite Hp, Hl. cbn [bind].
+  fold (resolve_port port). rewrite Hp, Hl. cbn [bind]. destruct (14 <? n) eqn:E14; [lia|]. cbn [bind].
   destruct (1 <? len lb) eqn:E; [|lia]. rewrite (USINT_small (len lb)) by lia. cbn [bind].
   change port_extended_link with 16. rewrite lor16 by lia. rewrite USINT_small by lia. cbn [bind wrap_all].
   unfold odd_len. cbn [app length]. rewrite !Nat.odd_succ, Nat.even_succ. reflexivity.
+Qed.
+
+(* ports above 14: identifier 15 + the 16-bit port number *)
+Lemma encode_port_x port n link x :
+  resolve_port port = Ok n -> 15 <= n <= 65535 -> port_link_bytes link = Ok [x] ->
+  encode_seg true (Port port link) = Ok [15; n mod 256; n / 256; x].
+Proof.
+  intros Hp Hn Hl. unfold encode_seg, encode_port, encode_port_with.
+  fold (resolve_port port). rewrite Hp, Hl. cbn [bind]. destruct (14 <? n) eqn:E; [|lia].
+  rewrite UINT_small by lia. cbn [bind].
+  change (len [x]) with 1. change (1 <? 1) with false. cbn [bind].
+  rewrite USINT_small by lia. reflexivity.
+Qed.
+
+Lemma encode_port_x_ext port n link lb :
+  resolve_port port = Ok n -> 15 <= n <= 65535 -> port_link_bytes link = Ok lb -> 2 <= len lb <= 255 ->
+  encode_seg true (Port port link)
+  = Ok (31 :: len lb :: n mod 256 :: n / 256 :: lb ++ (if Nat.odd (length lb) then [0] else [])).
+Proof.
+  intros Hp Hn Hl Hlen. unfold encode_seg, encode_port, encode_port_with.
+  fold (resolve_port port). rewrite Hp, Hl. cbn [bind]. destruct (14 <? n) eqn:E14; [|lia].
+  rewrite UINT_small by lia. cbn [bind].
+  destruct (1 <? len lb) eqn:E; [|lia]. rewrite (USINT_small (len lb)) by lia. cbn [bind].
+  change port_extended_link with 16. change (Z.lor 15 16) with 31. rewrite USINT_small by lia. cbn [bind wrap_all].
+  unfold odd_len. cbn [app length]. repeat (rewrite Nat.odd_succ || rewrite Nat.even_succ). reflexivity.
 Qed.
 
 Lemma denote_link_bytes link lk : denote_link link = Some lk ->
@@ -322,39 +368,56 @@ Proof.
     repeat split; try reflexivity; try assumption; lia.
 Qed.
 
-Lemma denote_port_resolve port n : denote_port port = Some n -> port_ge15 (Port port (LinkInt 0)) = false ->
-  resolve_port port = Ok n /\ 1 <= n <= 14.
+Lemma denote_port_resolve port n : denote_port port = Some n -> resolve_port port = Ok n /\ 1 <= n <= 65535.
 Proof.
-  destruct port as [k|name]; cbn [denote_port resolve_port port_ge15].
-  - destruct ((1 <=? k) && (k <=? 65535)) eqn:E; [|discriminate]. intros H Hg. injection H as <-.
+  destruct port as [k|name]; cbn [denote_port resolve_port].
+  - destruct ((1 <=? k) && (k <=? 65535)) eqn:E; [|discriminate]. intros H. injection H as <-.
     split; [reflexivity|lia].
-  - intros H _. destruct (port_names_agree _ _ H) as [-> Hn]. now split.
+  - intros H. destruct (port_names_agree _ _ H) as [-> Hn]. split; [reflexivity|lia].
 Qed.
 
-Lemma port_ok_gen port link ss :
-  denote (Port port link) = Some ss -> port_ge15 (Port port link) = false -> seg_result (Port port link) ss.
+Lemma pad_even k : Nat.even (k + length (if Nat.odd k then [0] else [])) = true.
 Proof.
-  intros Hd Hg. cbn [denote] in Hd.
+  replace (length (if Nat.odd k then [0] else [])) with (if Nat.odd k then 1%nat else 0%nat)
+    by (destruct (Nat.odd k); reflexivity).
+  apply even_pad.
+Qed.
+
+Lemma port_ok_gen port link ss : denote (Port port link) = Some ss -> seg_result (Port port link) ss.
+Proof.
+  intros Hd. cbn [denote] in Hd.
   destruct (denote_port port) as [n|] eqn:Ep; [|discriminate].
   destruct (denote_link link) as [lk|] eqn:El; [|discriminate]. injection Hd as <-.
-  destruct (denote_port_resolve port n Ep) as [Hr Hn]. { destruct port; exact Hg. }
+  destruct (denote_port_resolve port n Ep) as [Hr Hn].
   destruct (denote_link_bytes link lk El) as (Hlb & Hok & Hlen).
+  assert (Hsmall : n <= 14 \/ 15 <= n) by lia.
   destruct lk as [|x [|y lk]].
   - unfold len in Hlen. cbn [length] in Hlen. lia.
-  - exists [n; x]. split; [apply (encode_port_plain port n link x Hr); [lia|exact Hlb]|]. split; [|split].
-    + eexists _, _. split; [reflexivity|]. intros tail. cbn [app]. now apply parse_port_plain.
-    + rewrite bytes_ok_cons. unfold byte_ok at 1. rewrite Hok. lia.
-    + reflexivity.
+  - destruct Hsmall as [Hs|Hs].
+    + exists [n; x]. split; [apply (encode_port_plain port n link x Hr); [lia|exact Hlb]|]. split; [|split].
+      * eexists _, _. split; [reflexivity|]. intros tail. cbn [app]. apply parse_port_plain. lia.
+      * rewrite bytes_ok_cons. unfold byte_ok at 1. rewrite Hok. lia.
+      * reflexivity.
+    + exists [15; n mod 256; n / 256; x]. split; [apply (encode_port_x port n link x Hr); [lia|exact Hlb]|]. split; [|split].
+      * eexists _, _. split; [reflexivity|]. intros tail. cbn [app].
+        rewrite parse_port_x by lia. do 2 f_equal. f_equal. lia.
+      * rewrite !bytes_ok_cons in *. unfold byte_ok at 1 2 3. apply andb_true_iff in Hok as [Hx _].
+        rewrite Hx. cbn [bytes_ok forallb]. lia.
+      * reflexivity.
   - set (lb := x :: y :: lk) in *.
     assert (Hlen2 : 2 <= len lb <= 255) by (unfold len, lb in *; cbn [length] in *; lia).
-    eexists. split; [apply (encode_port_ext port n link lb Hr); [lia|exact Hlb|exact Hlen2]|]. split; [|split].
-    + eexists _, _. split; [reflexivity|]. intros tail. now apply parse_port_ext.
-    + rewrite !bytes_ok_cons, bytes_ok_app, Hok. unfold byte_ok.
-      destruct (Nat.odd (length lb)); cbn [bytes_ok forallb]; unfold byte_ok; lia.
-    + cbn [length]. rewrite app_length. rewrite !Nat.even_succ, Nat.odd_succ.
-      replace (length (if Nat.odd (length lb) then [0] else [])) with (if Nat.odd (length lb) then 1%nat else 0%nat)
-        by (destruct (Nat.odd (length lb)); reflexivity).
-      apply even_pad.
+    destruct Hsmall as [Hs|Hs].
+    + eexists. split; [apply (encode_port_ext port n link lb Hr); [lia|exact Hlb|exact Hlen2]|]. split; [|split].
+      * eexists _, _. split; [reflexivity|]. intros tail. apply parse_port_ext; [lia|exact Hlen2].
+      * rewrite !bytes_ok_cons, bytes_ok_app, Hok. unfold byte_ok.
+        destruct (Nat.odd (length lb)); cbn [bytes_ok forallb]; unfold byte_ok; lia.
+      * cbn [length]. rewrite app_length. rewrite !Nat.even_succ, Nat.odd_succ. apply pad_even.
+    + eexists. split; [apply (encode_port_x_ext port n link lb Hr); [lia|exact Hlb|exact Hlen2]|]. split; [|split].
+      * eexists _, _. split; [reflexivity|]. intros tail.
+        rewrite parse_port_x_ext by (lia || exact Hlen2). do 2 f_equal. f_equal. lia.
+      * rewrite !bytes_ok_cons, bytes_ok_app, Hok. unfold byte_ok.
+        destruct (Nat.odd (length lb)); cbn [bytes_ok forallb]; unfold byte_ok; lia.
+      * cbn [length]. rewrite app_length. repeat (rewrite Nat.odd_succ || rewrite Nat.even_succ). apply pad_even.
 Qed.
 
 (* ---------------------------------------------------------------- DataSegment._encode (symbol) *)
@@ -378,13 +441,13 @@ Proof.
 Qed.
 
 (* ---------------------------------------------------------------- any segment, any path *)
-Definition seg_guard (s : seg) : bool := (negb (table_f32 =? f32) && is32 s) || port_ge15 s.
+Definition seg_guard (s : seg) : bool := negb (table_f32 =? f32) && is32 s.
 
 Lemma seg_ok_gen s ss : denote s = Some ss -> seg_guard s = false -> seg_result s ss.
 Proof.
-  intros Hd Hg. unfold seg_guard in Hg. apply orb_false_iff in Hg as [H32 Hp].
+  intros Hd Hg. unfold seg_guard in Hg.
   destruct s as [t v|p l|n|b|b]; try discriminate.
-  - apply logical_ok_gen; [exact Hd|]. destruct (table_f32 =? f32) eqn:E; [left; lia|right; exact H32].
+  - apply logical_ok_gen; [exact Hd|]. destruct (table_f32 =? f32) eqn:E; [left; lia|right; exact Hg].
   - now apply port_ok_gen.
   - now apply sym_ok_gen.
 Qed.
